@@ -1362,6 +1362,7 @@ func exhaustive(maxLen int, f func(id string, ops [][]string)) {
 	A, B, C := h("a"), h("k"), h("c")
 	k1, k2, v1, v2 := h("a"), h("a\xff"), h("v"), h("w")
 	pro := [][]string{{"begin", "w"}, {"ctop", "0", A}, {"put", "0", k1, v1}, {"new", "1", "0", C}, {"put", "1", k1, v1}, {"commit"},
+		{"begin", "r"}, {"top", "r", "4", A}, {"bkt", "5", "4", C}, // a read transaction that stays open to the end
 		{"begin", "w"}, {"top", "w", "0", A}, {"bkt", "1", "0", C}}
 	alpha := [][][]string{
 		{{"put", "0", k1, v2}}, {{"put", "0", k2, v1}}, {{"rm", "0", k1}}, {{"get", "0", k1}}, {{"pfx", "0", k1}},
@@ -1371,7 +1372,8 @@ func exhaustive(maxLen int, f func(id string, ops [][]string)) {
 		{{"get", "1", k1}},
 	}
 	_ = B
-	epi := [][]string{{"pfx", "0", "-"}, {"names", "0"}, {"commit"}, {"dump"}, {"begin", "r"}, {"top", "r", "2", A}, {"iter", "0", "2", "2", k1, "-"},
+	epi := [][]string{{"pfx", "0", "-"}, {"names", "0"}, {"commit"}, {"dump"},
+		{"get", "4", k1}, {"pfx", "4", "-"}, {"names", "4"}, {"pfx", "5", "-"}, {"rend"}, {"begin", "r"}, {"top", "r", "2", A}, {"iter", "0", "2", "2", k1, "-"},
 		{"next", "0"}, {"next", "0"}, {"next", "0"}, {"seek", "0", k2}, {"bkt", "3", "2", C}, {"pfx", "3", "-"}}
 	idx := make([]int, 0, maxLen)
 	n := 0
